@@ -18,7 +18,7 @@ DEFAULT_CFG = dict(N=2, no_cache=True, silent=False, die=False, maximp=None, nog
 
 
 def mk_passes(specs):
-    return [ScriptPass(s['key'], [tuple(o) for o in s['ops']], s.get('aos', 0), s.get('maxt'), s.get('newfix')) for s in specs]
+    return [ScriptPass(s['key'], [tuple(o) for o in s['ops']], s.get('aos', 0), s.get('maxt'), s.get('newfix'), s.get('via_temp', False)) for s in specs]
 
 
 class Obs:
@@ -38,16 +38,16 @@ def snapshot_dir(root):
             try:
                 with open(p, 'rb') as f:
                     data = f.read()
-                out[rel] = (hashlib.sha1(data).hexdigest(), stat.S_IMODE(os.lstat(p).st_mode))
+                out[rel] = (hashlib.sha1(data).hexdigest(), stat.S_IMODE(os.lstat(p).st_mode), data if len(data) < 4096 else None)
             except OSError:
-                out[rel] = ('?', 0)
+                out[rel] = ('?', 0, None)
         for dn in dns:
             p = os.path.join(dp, dn)
-            out[os.path.relpath(p, root) + '/'] = ('dir', stat.S_IMODE(os.lstat(p).st_mode))
+            out[os.path.relpath(p, root) + '/'] = ('dir', stat.S_IMODE(os.lstat(p).st_mode), None)
     return out
 
 
-def run_scenario(sc, base, fast=True, mode='each', real_passes=None, on_test=None, keep=False, quiet_logging=True):
+def run_scenario(sc, base, fast=True, mode='each', real_passes=None, on_test=None, keep=False, quiet_logging=True, prepare=None):
     """Returns Obs with .out (flat ints, comparable with Script.sc_run_each / sc_reduce),
     .perm (model file index -> logical index), plus raw observations for the property oracles."""
     from cvise.utils import testing, statistics
@@ -91,7 +91,27 @@ def run_scenario(sc, base, fast=True, mode='each', real_passes=None, on_test=Non
         contents = read_joint(cwd)
         out = run_rules(rules, [c if c is not None else b'' for c in contents])
         rc = shim.TIMEOUT_EXIT if out == 'timeout' else out
-        testlog.append((tuple(contents), rc, cwd, sorted(os.listdir(cwd))))
+        manifest = {}
+        for dp, dns, fns in os.walk(cwd):
+            for fn in fns:
+                fp = os.path.join(dp, fn)
+                with open(fp, 'rb') as fh:
+                    manifest[os.path.relpath(fp, cwd)] = fh.read()
+        testlog.append((tuple(contents), rc, cwd, manifest))
+        if sc.get('scribble'):
+            # a test that litters its directory and clobbers the other test cases in it
+            with open(os.path.join(cwd, 'junk.tmp'), 'w') as fh:
+                fh.write('junk')
+            tm_ = getattr(o, 'tm', None)
+            cur = str(getattr(tm_, 'current_test_case', '')) if tm_ is not None else ''
+            for n in names:
+                if sc['scribble'] != 'all' and (n == cur or 'cvise-sanity-' in cwd):
+                    continue      # leave the candidate itself alone
+                try:
+                    with open(os.path.join(cwd, n), 'ab') as fh:
+                        fh.write(b'#scribble')
+                except OSError:
+                    pass
         if out == 'norun':
             if 'cvise-sanity-' in cwd:
                 return 1      # the fault is scripted for worker processes only
@@ -119,7 +139,10 @@ def run_scenario(sc, base, fast=True, mode='each', real_passes=None, on_test=Non
     os.chdir(work)
     tempfile.tempdir = tmpd
     os.environ['TMPDIR'] = tmpd
+    if prepare:
+        prepare(work)
     o.before = snapshot_dir(work)
+    o.cwd_before = os.getcwd()
     try:
         with shim.installed(sc.get('sched', []), fast_test if fast else None, quiet_logging=quiet_logging) as st:
             if on_test:
@@ -235,6 +258,7 @@ def run_scenario(sc, base, fast=True, mode='each', real_passes=None, on_test=Non
             o.sched_used = st.sched.pos
             o.stats = stats
     finally:
+        o.cwd_after = os.getcwd()
         os.chdir(old_cwd)
         tempfile.tempdir = old_tmp
         os.environ['TMPDIR'] = old_tmp or '/tmp'
